@@ -1923,16 +1923,21 @@ class AstEval:
 
     async def call_func(self, func, func_name, *args, **kwargs):
         """Call a function with the given arguments."""
-        if func_name is None:
+
+        def get_func_name():
+            if func_name is not None:
+                return func_name
             try:
                 if isinstance(func, (EvalFunc, EvalFuncVar)):
-                    func_name = func.get_name()
-                else:
-                    func_name = func.__name__
+                    return func.get_name()
+                return func.__name__
             except Exception:
-                func_name = "<function>"
-        arg_str = ", ".join(['"' + elt + '"' if isinstance(elt, str) else str(elt) for elt in args])
-        _LOGGER.debug("%s: calling %s(%s, %s)", self.name, func_name, arg_str, kwargs)
+                return "<function>"
+
+        if _LOGGER.isEnabledFor(logging.DEBUG):
+            # only touch the callee and the arguments (str(), __name__) when the message is really emitted
+            arg_str = ", ".join(['"' + elt + '"' if isinstance(elt, str) else str(elt) for elt in args])
+            _LOGGER.debug("%s: calling %s(%s, %s)", self.name, get_func_name(), arg_str, kwargs)
         if isinstance(func, (EvalFunc, EvalFuncVar)):
             return await func.call(self, *args, **kwargs)
         if inspect.isclass(func) and hasattr(func, "__init__evalfunc_wrap__"):
@@ -1953,7 +1958,7 @@ class AstEval:
                 )
                 return await asyncio.sleep(*args, **kwargs)
             return func(*args, **kwargs)
-        raise TypeError(f"'{func_name}' is not callable (got {func})")
+        raise TypeError(f"'{get_func_name()}' is not callable (got {func})")
 
     async def ast_ifexp(self, arg):
         """Evaluate if expression."""
